@@ -66,7 +66,7 @@ func (d *Date) MarshalJSON() ([]byte, error) {
 // UnmarshalJSON implements the json.Unmarshaler interface. The time must be a
 // quoted string in the RFC 3339 format.
 func (d *Date) UnmarshalJSON(data []byte) error {
-	tim, err := time.Parse(dateFormat, string(data[1:len(data)-1]))
+	tim, err := time.Parse(dateFormat, unquote(data))
 	if err != nil {
 		return fmt.Errorf("%w: Cannot parse %s as %q", ErrSQLType, data, dateFormat)
 	}
